@@ -5,7 +5,9 @@
 // script line:   n <N> [old] [park <site>:<ordinal>:<until>]* | <task> ; <task> ; ...
 //   task      =  <g> <time> <T> <R> <discard 0/1> <cb 0/1> <beh>,<beh>,...
 //   beh       =  <dur>:<hon 0/1>:<val>:<errcode>   behaviour of the j-th handler invocation of that task
-//   park s:o:u = the o-th call of ants.VerifHook(site s) in this scenario blocks until instant u
+//   park s:o:u = the o-th call of ants.VerifHook(site s), s in 1..4, in this scenario blocks until instant u
+//                (1 inner before its CAS, 2 dispatcher in the ctx.Done branch, 3 dispatcher before its select,
+//                 4 inner after winning the CAS, before publishing)
 // All times are ns of virtual time relative to the scenario start. The flag `old` is for the model only
 // (pre-fix variant); the harness ignores it.
 //
@@ -166,7 +168,7 @@ type runState struct {
 	obs     []taskObs
 	running int
 	maxRun  int
-	hookCnt [4]int
+	hookCnt [5]int
 }
 
 var cur *runState
@@ -178,7 +180,7 @@ func hook(site int) {
 	curMu.Lock()
 	r := cur
 	curMu.Unlock()
-	if r == nil || site < 1 || site > 3 {
+	if r == nil || site < 1 || site > 4 {
 		return
 	}
 	r.mu.Lock()
